@@ -20,6 +20,7 @@
 From Ark Require Import Model.Base Model.Mask Model.Pool Model.Util Model.World Model.Run.
 From Ark Require Import Proofs.WF Proofs.StorageA Proofs.StorageBDefs Proofs.StorageB_sb1 Proofs.StorageB_sb2 Proofs.StorageB_sb3.
 From Ark Require Import Proofs.StorageC Proofs.LockWorld Properties.Common.
+From Ark Require Import Proofs.Rel2Defs Proofs.Rel2Remove Proofs.Rel2SetRel Proofs.Rel2Ops.
 
 Theorem C10_stale_handle_rejected : forall debug s n o h e,
   Inv s n -> uses_handle o h -> handle s h = Some e -> live s e = false ->
@@ -80,6 +81,22 @@ Example C10_recycled_world :
   is_err (step_op false (OUAdd 0 [2]) recycled_world) = true.
 Proof. vm_compute. repeat split; reflexivity. Qed.
 
-Definition C10_all := (C10_stale_handle_rejected, C10_reachable, C10_dead_handle_operations, C10_locked_world,
+(** ** Worlds with relation components (relation tier, every state satisfying St2): every failing
+    NewEntity/Add/Remove/Exchange with relations, RemoveEntity and SetRelations leaves liveness,
+    components, values and relation targets of every entity, the pool and the user-side objects
+    unchanged ([r2c_rejected]; SetRelations: the state is literally unchanged), and the failure causes
+    are exactly the documented ones: locked world, dead handle, no components, component already
+    present / missing, relation target omitted (relation component among the added ones not named),
+    relation component named twice, non-relation component named in SetRelations, dead target. These are the [Err]
+    branches of the theorems below (see Rel2Ops.v, Rel2Remove.v, Rel2SetRel.v for the statements). *)
+Definition C10_rel_new_entity := r2a_new_entity_spec.
+Definition C10_rel_add := r2a_add_spec.
+Definition C10_rel_remove := r2a_remove_spec.
+Definition C10_rel_exchange := r2a_exchange_spec.
+Definition C10_rel_remove_entity := r2c_remove_entity_spec.
+Definition C10_rel_set_relations := r2b_set_relations_spec_noobs.
+
+Definition C10_all := (C10_rel_new_entity, C10_rel_add, C10_rel_remove, C10_rel_exchange, C10_rel_remove_entity, C10_rel_set_relations,
+  C10_stale_handle_rejected, C10_reachable, C10_dead_handle_operations, C10_locked_world,
   C10_add_rejected_keeps_content, C10_remove_rejected_keeps_content).
 Print Assumptions C10_all.
